@@ -829,6 +829,7 @@ func (p *c07prop) gen(r *rand.Rand, kind string, idx int64) C07Case {
 			// BlockSize larger than the window: long sequences
 			c.BlockSize = c.WindowSize*2 + r.Intn(40)
 		}
+		c.TameBig()
 		if typ == "GSAP" && c.WindowSize < c.MinMatchLen {
 			c.WindowSize = c.MinMatchLen
 		}
